@@ -743,7 +743,11 @@ func programCheck[S comparable](t *testing.T, a alg[S]) {
 	kit.Check(t, "program/"+a.name, rule, kit.Opt{Weight: 2}, func(rt *rapid.T, rec *kit.Rec) {
 		g := &pgen{rt: rt, rec: rec}
 		maxSize := kit.Pick(12, 60)
-		root := g.gen(1 + uniform(rt, maxSize, "size"))
+		size := 1 + uniform(rt, maxSize, "size")
+		if s2 := 1 + uniform(rt, maxSize, "size"); s2 > size { // the larger of two uniform draws: a budget, not the exact size
+			size = s2
+		}
+		root := g.gen(size)
 		s0 := a.gen(rt)
 		ref := newRef(a)
 		v, err, ns := ref.eval(root, s0)
